@@ -909,7 +909,9 @@ let cmp m = function
 
 let cmp_with_ptr m p n0 =
   match p with
-  | Some _ -> bind (memcmp m.buff p n0) (fun c -> Ok (sgn c))
+  | Some _ ->
+    bind (memcmp m.buff p (Z.min n0 m.size)) (fun c ->
+      if (&&) (Z.eqb c Z0) (Z.ltb m.size n0) then Ok (Zneg XH) else Ok (sgn c))
   | None -> Ok (Zpos XH)
 
 (** val ncmp : mb -> mb option -> z -> z res **)
@@ -1530,7 +1532,9 @@ let spec_step s = function
 | SubbuffPtr (i, c) ->
   ((OPtr (option_map (fun x -> app x (Z0 :: [])) (s_sub s i c))), s)
 | Trim -> ((OBool true), (s_trim s))
-| Reverse -> ((OBool (negb (Nat.eqb (length s) O))), (rev s))
+| Reverse -> ((match s with
+               | [] -> OUnit
+               | _ :: _ -> OBool true), (rev s))
 | Clear c -> ((OBool true), (repeat c (length s)))
 | Sprintf f ->
   (match f with
